@@ -108,6 +108,8 @@ class LRTDP(Plans):
             policy_dict[s] = self.policy(mdp, s)
             for a in mdp.actions(s):
                 q_values[s][a] = self.Q(mdp, s, a)
+        # states labelled solved keep the greedy action they were labelled with
+        policy_dict.update(self.res.solved_action)
         res.Q = q_values
 
         @FunctionalPolicy
@@ -146,6 +148,7 @@ class LRTDP(Plans):
 
         # Keeping track of "labels": which states have been solved
         self.res.solved = defaultdict2(lambda s: False)
+        self.res.solved_action = dict()
 
         for i in range(iterations):
             if all(self.res.solved[s] for s in mdp.initial_state_dist().support):
@@ -198,6 +201,7 @@ class LRTDP(Plans):
         if flag:
             for ns in closed:
                 self.res.solved[ns] = True
+                self.res.solved_action[ns] = self.policy(mdp, ns)
         else:
             while closed:
                 s = closed.pop()
